@@ -87,6 +87,8 @@ def db_cat(T, idx, depth=0):
     if t is None or depth > 8:
         return ("unknown", idx)
     fl = t["flags"]
+    if fl & F_array:
+        return ("array", db_cat(T, t["wrapped_type"], depth + 1), t["array_size"])
     if fl & F_wrapped:
         inner = db_cat(T, t["wrapped_type"], depth + 1)
         if fl & F_pointer:
@@ -345,6 +347,9 @@ def describe_failure(res):
         return "driver error: " + res["harness"]
     if d.get("what") in ("crash", "hang"):
         return "%s of the wrapper call (rc %s)" % (d["what"], d.get("rc"))
+    if d.get("what") == "argument-buffer":
+        return "argument buffer differs after call %s: wrapper %s / native %s" % (
+            d.get("call"), d["wrapper"].get("buffers"), d["oracle"].get("buffers"))
     return "%s differs at call %s: wrapper %s / native %s" % (
         d.get("what"), d.get("call"), json.dumps(d.get("wrapper", {}).get("ret" if d.get("what") == "return" else
                                                                          "trace" if d.get("what") in ("trace", "body") else "state"))[:200],
@@ -368,16 +373,30 @@ def main():
     cfgs = configurations(ck.tier)
     nb = 2 if ck.tier == "quick" else 3
     libs = []
+    unjudged_py_arrays = []
     for cfg in cfgs:
         atoms = atoms_for(ck.tier, cfg)
+        # array members get a library of their own: the -python code generated for them does not
+        # compile without the C03 array-cast repair, and that must not take other atoms with it
+        arr = [a for a in atoms if a[0] == "GA"]
+        atoms = [a for a in atoms if a[0] != "GA"]
         for bi, part in enumerate(batches(atoms, nb)):
             libs.append((cfg, "b%d" % bi, part))
+        if cfg.backend == "c":
+            libs.append((cfg, "barr", arr))
+        else:
+            # the simple Python back-end parses an array parameter as an opaque "O" object and casts the
+            # PyObject pointer to the element pointer: it does not accept arrays, so no value a Python
+            # caller could pass is defined -- left unjudged (counted)
+            unjudged_py_arrays.extend("%s:%s" % (cfg.name, atom_key(a)) for a in arr)
     # atoms re-run alone (batching must not mask anything): the first atom of every family
     alone = []
     if not ck.only or "alone" in ck.only:
         for cfg in cfgs[:1] + [c for c in cfgs if c.backend == "python"][:1]:
             seen = set()
             for at in atoms_for(ck.tier, cfg):
+                if at[0] == "GA" and cfg.backend != "c":
+                    continue
                 if at[0] not in seen and (cfg.names != "true"):
                     seen.add(at[0])
                     alone.append((cfg, "alone-" + atom_key(at).replace("/", "_").replace(",", "_"), [at]))
@@ -499,7 +518,8 @@ def main():
                      "unjudged_steps_c_string_with_nul": state["unjudged_steps"],
                      "compat_prelude_used_for": state["compat"], "unclaimed_wrappers": state["unclaimed"],
                      "specs_without_wrapper": state["missing"], "unjudged_libraries": state["unjudged_libs"],
-                     "alone_reruns": state["alone_checked"]})
+                     "alone_reruns": state["alone_checked"],
+                     "unjudged_python_array_member_setters": unjudged_py_arrays})
     if state["wrappers"] < 50 and not ck.only:
         raise HarnessError("vacuous exploration: only %d wrappers were called" % state["wrappers"])
     return ck.finish(
